@@ -499,4 +499,98 @@ theorem acc_balance {α : Type} (E : α → ℚ) (β : ℝ) (hβ : 0 ≤ β) (f 
     rw [if_pos h, if_neg h1, min_eq_right hle, hE, ← Real.exp_add]
     ring_nf
 
+/-! ### the move kernels -/
+
+/-- the energy the sampler reports (`get_energy`) for a configuration -/
+def reportedE (edges : List Edge) (biases : List Rat) {n : Nat} (x : Cfg n) : ℚ :=
+  getEnergy (bindingMat edges n) biases (toL x)
+
+/-- one `do_spin_flip`: site uniform in `0..n`, proposal = flip it, acceptance = `should_flip` on
+the `ΔE` **computed by the move** (`spinDelta`). -/
+noncomputable def spinKernel (edges : List Edge) (biases : List Rat) (β : ℝ) {n : Nat} :
+    Cfg n → Cfg n → ℝ :=
+  wsum (fun _ : Fin n => (1 : ℝ) / n) (fun i =>
+    metropolis (flipN i.val) (fun x => acc β (spinDelta (bindingMat edges n) biases (toL x) i.val)))
+
+/-- one `do_edge_flip`: edge `k` with a state-independent probability `q k` (uniform, or whatever
+the cumulative importance table yields), proposal = flip both endpoints, acceptance on the `ΔE`
+computed by the move (`edgeDelta`). -/
+noncomputable def edgeKernel (edges : List Edge) (biases : List Rat) (β : ℝ) {n : Nat}
+    (q : Fin edges.length → ℝ) : Cfg n → Cfg n → ℝ :=
+  wsum q (fun k =>
+    metropolis (fun x => flipN (edges[k]).1.2 (flipN (edges[k]).1.1 x))
+      (fun x => acc β (edgeDelta (bindingMat edges n) biases (toL x) (edges[k]).1.1 (edges[k]).1.2)))
+
+/-- `do_time_step` with `only_basic_moves`: fair choice between `ns` spin updates and `ne` edge updates -/
+noncomputable def stepKernel (edges : List Edge) (biases : List Rat) (β : ℝ) {n : Nat}
+    (q : Fin edges.length → ℝ) (ns ne : Nat) : Cfg n → Cfg n → ℝ :=
+  mix (1 / 2) (Dist.iter (spinKernel edges biases β) ns) (Dist.iter (edgeKernel edges biases β q) ne)
+
+/-- `do_time_step` with all three move kinds, for an arbitrary worm kernel `W` -/
+noncomputable def stepKernel3 (edges : List Edge) (biases : List Rat) (β : ℝ) {n : Nat}
+    (q : Fin edges.length → ℝ) (W : Cfg n → Cfg n → ℝ) (ns ne nw : Nat) : Cfg n → Cfg n → ℝ :=
+  mix (1 / 3) (Dist.iter (spinKernel edges biases β) ns)
+    (mix (1 / 2) (Dist.iter (edgeKernel edges biases β q) ne) (Dist.iter W nw))
+
+theorem reportedE_flipN (edges : List Edge) (biases : List Rat) {n : Nat} (hwf : WF edges n)
+    (hns : NoSelfLoops edges) (i : Nat) (hi : i < n) (x : Cfg n) :
+    spinDelta (bindingMat edges n) biases (toL x) i
+      = reportedE edges biases (flipN i x) - reportedE edges biases x := by
+  unfold reportedE
+  rw [energy_eq_aux edges biases _ n (length_toL _) hwf, energy_eq_aux edges biases _ n (length_toL _) hwf,
+    toL_flipN, spin_delta_aux edges biases (toL x) n i (length_toL x) hns hi]
+
+theorem reportedE_flip2 (edges : List Edge) (biases : List Rat) {n : Nat} (hwf : WF edges n)
+    (hns : NoSelfLoops edges) (a b : Nat) (ha : a < n) (hb : b < n) (hab : a ≠ b) (x : Cfg n) :
+    edgeDelta (bindingMat edges n) biases (toL x) a b
+      = reportedE edges biases (flipN b (flipN a x)) - reportedE edges biases x := by
+  unfold reportedE
+  rw [energy_eq_aux edges biases _ n (length_toL _) hwf, energy_eq_aux edges biases _ n (length_toL _) hwf,
+    toL_flipN, toL_flipN, edge_delta_aux edges biases (toL x) n a b (length_toL x) hns ha hb hab]
+
+theorem sum_uniform (n : Nat) (hn : 0 < n) : ∑ _i : Fin n, (1 : ℝ) / n = 1 := by
+  have : (n : ℝ) ≠ 0 := by exact_mod_cast hn.ne'
+  simp [Finset.sum_const, Finset.card_univ, this]
+
+theorem spinKernel_reversible (edges : List Edge) (biases : List Rat) (β : ℝ) (hβ : 0 ≤ β) {n : Nat}
+    (hwf : WF edges n) (hns : NoSelfLoops edges) :
+    Reversible (boltz (reportedE edges biases (n := n)) β) (spinKernel edges biases β) := by
+  apply reversible_wsum
+  intro i
+  apply involution_metropolis_reversible (fun a => flipN_flipN i.val a)
+  intro a
+  exact acc_balance (reportedE edges biases) β hβ (flipN i.val) (fun a => flipN_flipN i.val a)
+    (fun x => spinDelta (bindingMat edges n) biases (toL x) i.val)
+    (fun x => reportedE_flipN edges biases hwf hns i.val i.isLt x) a
+
+theorem spinKernel_stochastic (edges : List Edge) (biases : List Rat) (β : ℝ) {n : Nat} (hn : 0 < n) :
+    Stochastic (spinKernel edges biases β (n := n)) := by
+  apply stochastic_wsum
+  · intro i; exact stochastic_metropolis (fun a => acc_nonneg _ _) (fun a => acc_le_one _ _)
+  · intro i; positivity
+  · exact sum_uniform n hn
+
+theorem edgeKernel_reversible (edges : List Edge) (biases : List Rat) (β : ℝ) (hβ : 0 ≤ β) {n : Nat}
+    (hwf : WF edges n) (hns : NoSelfLoops edges) (q : Fin edges.length → ℝ) :
+    Reversible (boltz (reportedE edges biases (n := n)) β) (edgeKernel edges biases β q) := by
+  apply reversible_wsum
+  intro k
+  have hmem : edges[k] ∈ edges := List.getElem_mem _
+  have hk := hwf _ hmem
+  have hne := hns _ hmem
+  apply involution_metropolis_reversible (fun a => flip2_invol _ _ a)
+  intro a
+  exact acc_balance (reportedE edges biases) β hβ
+    (fun x => flipN (edges[k]).1.2 (flipN (edges[k]).1.1 x)) (fun a => flip2_invol _ _ a)
+    (fun x => edgeDelta (bindingMat edges n) biases (toL x) (edges[k]).1.1 (edges[k]).1.2)
+    (fun x => reportedE_flip2 edges biases hwf hns _ _ hk.1 hk.2 hne x) a
+
+theorem edgeKernel_stochastic (edges : List Edge) (biases : List Rat) (β : ℝ) {n : Nat}
+    (q : Fin edges.length → ℝ) (hq0 : ∀ k, 0 ≤ q k) (hq1 : ∑ k, q k = 1) :
+    Stochastic (edgeKernel edges biases β q (n := n)) := by
+  apply stochastic_wsum
+  · intro i; exact stochastic_metropolis (fun a => acc_nonneg _ _) (fun a => acc_le_one _ _)
+  · exact hq0
+  · exact hq1
+
 end Qmc.Classical
